@@ -3,7 +3,8 @@ EXTENDS Greedy
 Unlimited == -1
 Pr(xx, ms, y, mask, tol2, maxit, km) == [x |-> xx, motifs |-> ms, y |-> y, mask |-> mask, tol2 |-> tol2, maxit |-> maxit, km |-> km]
 Xs(l) == { [i \in 1..l |-> (i * k) % 4] : k \in 0..2 }
-MotifSets == { << <<1>> >>, << <<2, 3>> >>, << <<0>>, <<3, 1>> >>, << <<1, 1, 2>> >>, << <<3>>, <<2>> >> }
+MotifSets == { << <<1>> >>, << <<2, 3>> >>, << <<0>>, <<3, 1>> >>, << <<1, 1, 2>> >>, << <<3>>, <<2>> >>,
+               << <<3, 1>>, <<0>> >>, << <<1, 1, 2>>, <<2>>, <<0, 3>> >> }      \* a longer motif listed BEFORE a shorter one
 Ys == { <<0, 0>>, <<3, -2>>, <<-4, 5>> }
 ProblemsQ == { Pr(xx, ms, y, mask, tol2, maxit, km) :
                  xx \in Xs(3) \cup Xs(4), ms \in MotifSets, y \in Ys, mask \in {{0, 1}, {1}},
